@@ -4,7 +4,7 @@ from ..eround import RF, Unsupported, D18
 from ..roles import AnchorMissing
 
 
-def run(ctx):
+def _run(ctx):
     P = ctx.P
     n1 = ctx.inst("C06.N1", "n >= g*(1-c) - 1 with g = y*a/(x+a), all inputs, all rates in [0,1]", floor=1)
     n2 = ctx.inst("C06.N2", "n <= g*(1-c) + 1", floor=1)
@@ -69,3 +69,9 @@ def run(ctx):
                 w1.fail("C06.W1:%s" % fl["key"], fl["fn"], fl["span"], "[%s] %s" % (i.id, fl["reason"]))
     ctx.assumptions.append("strict inequalities of the statement are proved in their non-strict closure; strictness follows from eps < 1 (DESIGN §7.3)")
     ctx.assumptions.append("lemma used by M1: v - floor(v*c) is non-decreasing in integer v for c in [0,1]")
+
+
+def run(ctx):
+    from .. import numeric
+    _run(ctx)
+    numeric.arith_base(ctx, "C06.B1")
